@@ -11,7 +11,7 @@ def main():
     extra = [a.split('=', 1)[1].split(',') for a in sys.argv[1:] if a.startswith('--checks=')]
     for name in sorted(os.listdir(SEED)):
         d = os.path.join(SEED, name)
-        if name == 'own' or not os.path.isdir(d) or (args and name not in args):
+        if name in ('own', 'benign') or not os.path.isdir(d) or (args and name not in args):
             continue
         meta = json.load(open(os.path.join(d, 'meta.json')))
         checks = extra[0] if extra else [meta['property']]
